@@ -68,15 +68,18 @@ said otherwise; signatures name family + equation block):
 from __future__ import annotations
 
 META = {
-    "level": "exploration",
+    "level": "other",
     "engine": "sweep",
-    "technique": "run-time contract sweep (bounded stand-in for deduction): assembled model Jacobian times seeded directions compared row-wise with central "
+    "technique": "lemma over the C01 / C02 contracts (model Jacobian = derivative of the residual by structural induction over operator trees) whose premise -- every "
+                 "node of every equation tree of the built models is of a kind proved in C02 and every operator function wraps a C01-verified function -- is decided on the "
+                 "real operator trees on every run; run-time contract sweep (bounded stand-in): assembled model Jacobian times seeded directions compared row-wise with central "
                  "differences of the assembled residual, discretization matrices held fixed, over enumerated model families / fracture sets / grids / materials / "
                  "contact regimes; plus a static AST audit of AD function wrappers in the model sources",
     "text": "Exploration: the five shipped model families (quick: flow, mass+energy, momentum, poromechanics in 2-D, thermoporomechanics on one 2-D grid; thorough adds 3-D, "
             "all thermoporomechanics configurations, mixed boundary conditions, TPSA and differentiable-TPFA variants) with 0-3 intersecting fractures on Cartesian and simplex "
             "grids, two material sets, states sampled in the smooth region with per-cell contact regimes {closed-stick, closed-slip, open}. Finite differences are the oracle; "
-            "no obligation is discharged symbolically (the DESIGN lemma over C01/C02 is represented by the static audit list only). Not covered: wells (codimension-2 "
+            "the lemma C01 + C02 => C03 is applied to exactly the models the sweep builds (its premise is a tree walk, reported as one bounded obligation; when a model "
+            "uses a node outside the proved contracts the lemma is reported as not covering it and only the sweep decides). Not covered: wells (codimension-2 "
             "interfaces), compositional flow, gravity, non-matching grids, states on the kinks of max/norm functions (excluded by the statement), the approximate "
             "'differentiable_mpfa' linearisation (excluded, documented as approximate), larger grids.",
     "note": "finite-difference oracle with h=1e-6 and relative row tolerance 1e-6; regime margins are computed with the model's own constitutive operators (requires-filter only); "
@@ -451,6 +454,52 @@ OB_JAC = "assemble_linear_system: Jacobian equals the directional derivative of 
 OB_RES = "assemble_linear_system: right-hand side equals the negative residual-only assembly at the same state"
 
 
+# Lemma (C03 from C01 + C02).  If every node of every equation tree of a model is of a kind whose evaluation contract is proved
+# in C02 (operations produced by the Operator overloads, leaves that parse to constants or to variables) and every operator-function
+# node wraps a function of porepy.numerics.ad.functions whose value/Jacobian contract is proved in C01 (possibly through
+# functools.partial fixing non-differentiated arguments), then by structural induction EquationSystem.assemble returns
+# (d residual / d x, -residual): the Jacobian is the derivative of the residual wherever the residual is differentiable.
+# The premise is a decidable statement about the real operator trees of a real model; it is checked on every model the sweep builds.
+C01_FUNCTIONS = ("exp", "log", "abs", "sin", "cos", "tan", "arcsin", "arccos", "arctan", "sinh", "cosh", "tanh", "arcsinh", "arccosh", "arctanh",
+                 "heaviside", "heaviside_smooth", "maximum", "characteristic_function", "safe_power", "l2_norm")
+C02_OPERATIONS = {"void", "add", "sub", "mul", "div", "pow", "matmul", "neg", "evaluate", "rmul", "rdiv", "rpow", "rmatmul", "radd", "rsub"}
+C02_LEAVES = {"Scalar", "SparseArray", "DenseArray", "TimeDependentDenseArray", "Variable", "MixedDimensionalVariable", "Projection", "ProjectionList",
+              "MergedOperator", "Divergence", "Trace", "InvTrace", "BoundaryProjection", "ArraySlicerOperator"}
+PREMISE = {"models": 0, "nodes": 0, "function_nodes": 0, "outside": {}}
+
+
+def lemma_premise(pp, m, label):
+    """Walk all equation trees of the model; returns the list of nodes outside the lemma's reach (empty = premise holds)."""
+    import functools
+
+    verified = {getattr(pp.ad.functions, n) for n in C01_FUNCTIONS if hasattr(pp.ad.functions, n)}
+    outside = []
+    for name, eq in m.equation_system.equations.items():
+        stack = [eq]
+        while stack:
+            o = stack.pop()
+            PREMISE["nodes"] += 1
+            if o.children:
+                opn = getattr(o.operation, "name", str(o.operation))
+                if opn not in C02_OPERATIONS:
+                    outside.append(f"{name}: operation {opn}")
+                if opn == "evaluate":
+                    PREMISE["function_nodes"] += 1
+                    F = getattr(o.func, "__self__", None)
+                    g = getattr(F, "_func", None)
+                    base = g.func if isinstance(g, functools.partial) else g
+                    if not (isinstance(F, pp.ad.Function) and base in verified):
+                        outside.append(f"{name}: function node '{getattr(F, 'name', F)}' wraps {getattr(base, '__module__', '?')}.{getattr(base, '__qualname__', base)} "
+                                       f"({type(F).__name__}), not a C01-verified function")
+                stack.extend(o.children)
+            elif type(o).__name__ not in C02_LEAVES:
+                outside.append(f"{name}: leaf of type {type(o).__name__}")
+    PREMISE["models"] += 1
+    if outside:
+        PREMISE["outside"].setdefault(label, sorted(set(outside))[:10])
+    return outside
+
+
 def check_case(rep, sw, pp, spec, n_states, n_full, per_block):
     """One model; ``n_states`` seeded states; returns number of evaluated (state, direction) pairs."""
     fam = spec["family"]
@@ -464,6 +513,10 @@ def check_case(rep, sw, pp, spec, n_states, n_full, per_block):
     except Exception as e:  # noqa: BLE001
         rep.violation(OB_EVAL, f"{label}: prepare_simulation raises {type(e).__name__}", inputs=spec, detail=f"{cfg}: {e!r}"[:600])
         return 0
+    try:
+        lemma_premise(pp, m, f"{label} {cfg}")
+    except Exception as e:  # noqa: BLE001
+        PREMISE["outside"].setdefault(f"{label} {cfg}", [f"tree walk failed: {type(e).__name__}: {e}"])
     es = m.equation_system
     done = 0
     s_i = -1
@@ -703,3 +756,14 @@ def run(rep):
                 fam_done[spec["family"]] = fam_done.get(spec["family"], 0) + k
         rep.extra["evaluations_per_family"] = {FAMILIES[k]: v for k, v in fam_done.items()}
         rep.extra["sweep_statistics"] = STATS
+    # the lemma's premise on the real operator trees of every model built above
+    rep.extra["lemma_premise"] = {k: v for k, v in PREMISE.items()}
+    name = ("lemma (C01 + C02 => C03): every node of every equation tree of the built models is within the proved contracts "
+            "(C02 operations and leaves; operator functions wrap C01-verified functions)")
+    if PREMISE["models"] and not PREMISE["outside"]:
+        rep.obligation(name + f" [{PREMISE['models']} models, {PREMISE['nodes']} nodes, {PREMISE['function_nodes']} function nodes]", "discharged", "Ps", "operator-tree-walk")
+        rep.trust("C01 (forward-mode contracts) and C02 (parser contracts) as proved by their own checks; structural induction over operator trees")
+    elif PREMISE["outside"]:
+        # not a violation: the lemma simply does not reach these models; the finite-difference sweep above is what decides them
+        rep.fallbacks.append({"case": "lemma premise", "reason": PREMISE["outside"]})
+        rep.note("lemma C01 + C02 => C03 does not cover all built models (nodes outside the proved contracts): " + str(list(PREMISE["outside"].items())[:3])[:600])
